@@ -72,7 +72,7 @@ impl Script for C13Script {
         let delay = d / 2 * tape::weighted("c13:delay", &[3, 3, 4, 3, 3, 2, 2, 1]) as u64;
         let out = match tape::weighted("c13:outcome", &[self.success_weight, 2, 4, 1]) {
             0 => Out::Success,
-            1 => Out::Definitive(tape::choose("c13:definitive", 4) as u8),
+            1 => Out::Definitive(tape::choose("c13:definitive", 7) as u8),
             2 => Out::Ignorable(tape::choose("c13:ignorable", 3) as u8),
             _ => Out::Rst,
         };
@@ -99,6 +99,34 @@ impl Script for C13Script {
         match out {
             Out::Success => Reply::DefaultAfter(delay),
             Out::Rst => Reply::Close { rst: true, delay },
+            // A response the client cannot parse is a definitive answer too (nothing says
+            // the request was not executed).
+            Out::Definitive(4) => {
+                // RESULT/Rows announcing one column and ending right there.
+                let mut b = W::new();
+                b.i32(0x0002).i32(0x0001).i32(1);
+                w.fault(Fault::Corrupt);
+                Reply::Raw { opcode: crate::wire::OP_RESULT, body: b.buf, env: Default::default(), delay }
+            }
+            Out::Definitive(5) => {
+                // ERROR with a code but a truncated message.
+                let mut b = W::new();
+                b.i32(err::INVALID).u16(200);
+                w.fault(Fault::Corrupt);
+                Reply::Raw { opcode: crate::wire::OP_ERROR, body: b.buf, env: Default::default(), delay }
+            }
+            Out::Definitive(6) => {
+                // WARNING flag set but the warnings list is cut short.
+                let mut b = W::new();
+                b.u16(3).u16(50);
+                w.fault(Fault::Corrupt);
+                Reply::Raw {
+                    opcode: crate::wire::OP_RESULT,
+                    body: b.buf,
+                    env: crate::wire::Envelope { extra_flags: crate::wire::FLAG_WARNING, ..Default::default() },
+                    delay,
+                }
+            }
             Out::Definitive(k) => {
                 let code = match k {
                     0 => err::INVALID,
@@ -184,6 +212,11 @@ fn classify(e: &ExecutionError) -> &'static str {
             _ => "other",
         },
         ExecutionError::LastAttemptError(RequestAttemptError::BrokenConnectionError(_)) => "ignorable",
+        ExecutionError::LastAttemptError(
+            RequestAttemptError::CqlResultParseError(_)
+            | RequestAttemptError::CqlErrorParseError(_)
+            | RequestAttemptError::BodyExtensionsParseError(_),
+        ) => "definitive",
         ExecutionError::ConnectionPoolError(_) => "pool",
         ExecutionError::EmptyPlan => "empty_plan",
         _ => "other",
